@@ -21,6 +21,16 @@ type LocalFS struct {
 	once    sync.Once
 	entries chan walkEntry
 	sErr    error
+
+	// Directories and their mtimes, recorded while writing. Creating entries in
+	// a directory updates its mtime, so the archived value is applied again once
+	// everything has been written.
+	dirTimes []dirTime
+}
+
+type dirTime struct {
+	path  string
+	mtime time.Time
 }
 
 // LocalFSOptions influence the behavior of the filesystem when reading from or writing too it.
@@ -64,7 +74,21 @@ func (fs *LocalFS) CreateDir(n NodeDirectory) error {
 	if n.MTime == time.Unix(0, 0) {
 		return nil
 	}
+	fs.dirTimes = append(fs.dirTimes, dirTime{dst, n.MTime})
 	return os.Chtimes(dst, n.MTime, n.MTime)
+}
+
+// finishUntar is called by UnTar once all nodes have been written. It restores the
+// mtimes of directories, which were changed by creating the entries inside them.
+func (fs *LocalFS) finishUntar() error {
+	for i := len(fs.dirTimes) - 1; i >= 0; i-- {
+		d := fs.dirTimes[i]
+		if err := os.Chtimes(d.path, d.mtime, d.mtime); err != nil {
+			return err
+		}
+	}
+	fs.dirTimes = nil
+	return nil
 }
 
 func (fs *LocalFS) CreateFile(n NodeFile) error {
